@@ -309,6 +309,9 @@ class CallMixin:
                     c.modifies(self, s2, NS(env, env, s2, old))
                 exc = VExc(cls, site=getattr(node, 'lineno', None))
                 ns2 = NS(env, env, s2, old)
+                if c.sets_exc:
+                    for obj, fld, val in c.sets_exc(NS(env, env, s2, old), exc):
+                        s2.setfield(obj, fld, val)
                 for en in c.ensures_exc:
                     s2.assume(en(ns2, exc))
                 s2.trail.append(f"raise@{getattr(node, 'lineno', '?')}:{key.split('::')[1]}")
@@ -318,8 +321,14 @@ class CallMixin:
         old = pre
         if c.modifies:
             c.modifies(self, s1, NS(env, env, s1, old))
-        ret = fresh(c.returns, hint=key.split('::')[1].split('.')[-1]) if c.returns is not None else NONE
+        if c.alloc_ret is not None:
+            ret = c.alloc_ret(self, s1, NS(env, env, s1, old))
+        else:
+            ret = fresh(c.returns, hint=key.split('::')[1].split('.')[-1]) if c.returns is not None else NONE
         ns1 = NS(env, env, s1, old)
+        if c.sets:
+            for obj, fld, val in c.sets(NS(env, env, s1, old), ret):
+                s1.setfield(obj, fld, val)
         for en in c.ensures:
             s1.assume(en(ns1, ret))
         for h in c.post_hints:
